@@ -438,15 +438,40 @@ func c18Method(ctx *Ctx, r *Report, m copyMethod) {
 			}
 			return true
 		})
-		if len(lits) != 1 {
+		// alternative shape: `clone := *src` / `clone := src` (value receiver): a shallow copy of
+		// every field, refined by later assignments to clone.F
+		var shallow *ast.AssignStmt
+		if len(lits) == 0 {
+			ast.Inspect(m.fd.Body, func(n ast.Node) bool {
+				as, ok := n.(*ast.AssignStmt)
+				if !ok || as.Tok != token.DEFINE || len(as.Lhs) != 1 || len(as.Rhs) != 1 || shallow != nil {
+					return true
+				}
+				rhs := ast.Unparen(as.Rhs[0])
+				if st, ok := rhs.(*ast.StarExpr); ok {
+					rhs = ast.Unparen(st.X)
+				}
+				if isIdentOf(info, rhs, src) {
+					shallow = as
+				}
+				return true
+			})
+		}
+		if len(lits) != 1 && shallow == nil {
 			r.Bad("copycheck/shape", name, m.fd.Pos(), fmt.Sprintf("expected exactly one result literal of type %s, found %d: copy routine shape not recognised", m.recv.Obj().Name(), len(lits)))
 			return
 		}
-		lit := lits[0]
+		var lit *ast.CompositeLit
 		var clone types.Object
-		if as, ok := parents[lit].(*ast.AssignStmt); ok && len(as.Lhs) == 1 {
-			if id, ok := as.Lhs[0].(*ast.Ident); ok {
-				clone = objOf(info, id)
+		if shallow != nil {
+			lit = &ast.CompositeLit{Lbrace: shallow.Pos(), Rbrace: shallow.End()}
+			clone = objOf(info, shallow.Lhs[0].(*ast.Ident))
+		} else {
+			lit = lits[0]
+			if as, ok := parents[lit].(*ast.AssignStmt); ok && len(as.Lhs) == 1 {
+				if id, ok := as.Lhs[0].(*ast.Ident); ok {
+					clone = objOf(info, id)
+				}
 			}
 		}
 		type producer struct {
@@ -468,6 +493,16 @@ func c18Method(ctx *Ctx, r *Report, m copyMethod) {
 				}
 			} else if i < u.NumFields() {
 				prods[u.Field(i)] = append(prods[u.Field(i)], producer{expr: el, node: el})
+			}
+		}
+		shallowFields := map[*types.Var]bool{}
+		if shallow != nil {
+			// every field starts as a by-value copy of the source's field
+			for i := 0; i < u.NumFields(); i++ {
+				f := u.Field(i)
+				sel := &ast.SelectorExpr{X: ast.NewIdent(src.Name()), Sel: ast.NewIdent(f.Name())}
+				_ = sel
+				shallowFields[f] = true
 			}
 		}
 		if clone != nil {
@@ -512,6 +547,29 @@ func c18Method(ctx *Ctx, r *Report, m copyMethod) {
 			r.Count("fields checked for coverage", 1)
 			cons := m.recv.Obj().Name() + "." + f.Name()
 			ps := prods[f]
+			if shallowFields[f] {
+				// covered by the shallow copy; alias-free only if a later assignment replaces it with a fresh value
+				r.OK("copycheck/coverage", cons, shallow.Pos(), "covered by the initial by-value copy of the whole struct")
+				if !typeContainsRef(f.Type()) || isEmptyInterface(f.Type()) {
+					continue
+				}
+				r.Count("reference-bearing fields checked for alias freedom", 1)
+				replaced := false
+				for _, p := range ps {
+					// an unconditional-or-nil-guarded re-assignment with a fresh producer
+					j.why = ""
+					T := f.Type()
+					if p.elemT != nil {
+						T = p.elemT
+					}
+					if j.fresh(p.expr, T) {
+						replaced = true
+					}
+				}
+				r.Check(replaced, "copycheck/alias", cons, shallow.Pos(), "the shallow copy of this field is replaced by a fresh value",
+					fmt.Sprintf("%s copies the whole struct by value (%s) and never replaces field %s by a fresh copy: its pointers/slices are shared between the copy and the original", name, exprString(shallow.Rhs[0]), f.Name()))
+				continue
+			}
 			if len(ps) == 0 {
 				r.Bad("copycheck/coverage", cons, m.fd.Pos(), fmt.Sprintf("%s never assigns field %s of the copy: the value is lost", name, f.Name()))
 				continue
